@@ -1,10 +1,12 @@
 //! One module per property: scope definition (alphabet, bounds) and oracle wiring.
 use crate::engine::Prop;
 
+pub mod c02;
+pub mod c03;
 pub mod c04;
 
 pub fn all() -> Vec<&'static dyn Prop> {
-    vec![&c04::C04]
+    vec![&c02::C02, &c03::C03, &c04::C04]
 }
 pub fn find(id: &str) -> Option<&'static dyn Prop> {
     all().into_iter().find(|p| p.id() == id)
